@@ -5,6 +5,9 @@ import json, os
 V = os.path.dirname(os.path.dirname(os.path.abspath(__file__)))
 
 CLAIMED = {
+    "C18": ("exploration", "contracts on the real reporter functions discharged as unbounded VCs (pyvc/z3) with json.dumps / sys.getsizeof as trusted uninterpreted functions and a ghost output log; bounded native round-trip monitor for the regular-expression channel",
+            "Reporter side proved for all values: each accepted report hands exactly one dictionary to the serialiser containing the user's values unchanged, the counter value before its increment and a time stamp; None values and reserved 'st_' keys are rejected before anything is written; a serialisation at or above the size limit is rejected and no tagged line is printed. Text channel, bounded stand-in: 100 report sets from a catalogue of 20 hostile values x noise x trailing newline through the real Reporter and retrieve.",
+            "json.dumps/json.loads trusted; strings and regular expressions are outside pyvc's theory, so retrieve is only explored on the stated catalogue; kwargs with symbolic key sets not modelled (two fixed user keys).", "5/C18"),
     # id: (category, technique, level text, level note, design ref)
     "C03": ("proof", "contract-based deductive verification: VCs generated from the real AST (pyvc), discharged by z3/cvc5; bounded-shape stand-in for witnesses",
             "Unbounded verification conditions for the rung/quantile/stop-decision functions of stopping-type Hyperband, generated from /repo's source on every run; every obligation must be discharged. Counter-models are replayed natively.",
